@@ -126,11 +126,11 @@ func textClasses(s string) (out []string) {
 		switch {
 		case len(rest) > 0 && isAlpha(rest[0]):
 			if tagNameOddEnd(rest) {
-				out = append(out, "K28")
+				out = append(out, "odd-tag-name-end") // was the exclusion class of K28 until c14b79b
 			}
 		case len(rest) > 1 && rest[0] == '/' && isAlpha(rest[1]):
 			if tagNameOddEnd(rest[1:]) {
-				out = append(out, "K28")
+				out = append(out, "odd-tag-name-end")
 			}
 		case strings.HasPrefix(rest, "!--"):
 			body := rest[3:]
